@@ -373,19 +373,35 @@ func c31GetCAR(c *an.Ctx) {
 									why = "root is not <path>.RootCid()"
 									continue
 								}
-								recv := an.Recv(rc)
-								u, ok := recv.(*ssa.UnOp)
-								if !ok {
-									continue
+								// the path whose root is taken: the LastSegment of a ContentPathMetadata, possibly handed
+								// down as an argument to the function that writes the CAR
+								var bases []ssa.Value
+								okSeg := true
+								for _, ro := range c31Origins(all, gc, an.Recv(rc), 0) {
+									u, ok := ro.(*ssa.UnOp)
+									if !ok || u.Op != token.MUL {
+										okSeg = false
+										continue
+									}
+									f, base := an.FieldOf(u.X)
+									if f == nil || f.Name() != "LastSegment" || !an.TypeIs(an.FieldBaseType(u.X), c30Gw, "ContentPathMetadata") {
+										okSeg = false
+										continue
+									}
+									bases = append(bases, base)
 								}
-								f, base := an.FieldOf(u.X)
-								if f == nil || f.Name() != "LastSegment" || !an.TypeIs(an.FieldBaseType(u.X), c30Gw, "ContentPathMetadata") {
+								if !okSeg || len(bases) == 0 {
 									why = "root is not the LastSegment of a ContentPathMetadata"
 									continue
 								}
 								// the metadata value comes from bb.ResolvePath(ctx, p)
-								vals := c31CellStores(all, base)
-								okMd := len(vals) > 0
+								var vals []ssa.Value
+								okMd := true
+								for _, base := range bases {
+									vs := c31CellStores(all, base)
+									okMd = okMd && len(vs) > 0
+									vals = append(vals, vs...)
+								}
 								for _, v := range vals {
 									rp, ok := an.IsCallTo(v, an.M(c30Gw, "BlocksBackend", "ResolvePath"))
 									if !ok {
@@ -1127,6 +1143,57 @@ func c31Raw(c *an.Ctx) {
 						})
 					}
 				}
+				// the metadata may be built by a package-local function from its arguments: its LastSegment
+				// is then a parameter (or a field of a struct parameter), and the argument given here must be
+				// the very path (the same field of the same value) whose root was fetched
+				if mc, ok := md.(*ssa.Call); ok && !okMd && lastSeg != nil {
+					if h := an.Callee(mc).Static; h != nil && h.Pkg == gb.Pkg && len(h.Blocks) > 0 {
+						rets := an.Returns(h)
+						all := len(rets) > 0
+						for _, hr := range rets {
+							good := false
+							if len(hr.Results) == 1 {
+								if hu, ok := hr.Results[0].(*ssa.UnOp); ok && hu.Op == token.MUL {
+									if hal, ok := hu.X.(*ssa.Alloc); ok {
+										n := 0
+										an.Instrs(h, func(in ssa.Instruction) {
+											st, ok := in.(*ssa.Store)
+											if !ok {
+												return
+											}
+											f, b := an.FieldOf(st.Addr)
+											if f == nil || f.Name() != "LastSegment" || b != ssa.Value(hal) {
+												return
+											}
+											n++
+											argOf := func(q *ssa.Parameter) ssa.Value {
+												for i, hp := range h.Params {
+													if hp == q && i < len(mc.Call.Args) {
+														return mc.Call.Args[i]
+													}
+												}
+												return nil
+											}
+											if q, ok := st.Val.(*ssa.Parameter); ok {
+												if a := argOf(q); a != nil && (a == lastSeg || an.SameObj(a, lastSeg)) {
+													good = true
+												}
+											} else if q, pf := c42ParamField(st.Val); q != nil {
+												lb, lf := c31FieldOfValue(lastSeg)
+												if a := argOf(q); a != nil && lb != nil && lf == pf && (a == lb || an.SameObj(a, lb)) {
+													good = true
+												}
+											}
+										})
+										good = good && n == 1
+									}
+								}
+							}
+							all = all && good
+						}
+						okMd = all
+					}
+				}
 				c.Check(okCid && okBytes && okMd && an.OnNilEdgeOf(gb, g, r), "O4", "R-FLOW", name, "bytes=GetBlock(lastSeg.RootCid()).RawData()", r.Pos(),
 					"the raw response is the fetched block's bytes, announced under the same path segment",
 					fmt.Sprintf("GetBlock does not return RawData() of the block fetched for lastSeg.RootCid() together with LastSegment=lastSeg on the fetch's nil edge (cid ok=%v bytes ok=%v metadata ok=%v): bytes and announced CID can differ", okCid, okBytes, okMd))
@@ -1714,4 +1781,55 @@ func c31Origins(fns []*ssa.Function, top *ssa.Function, v ssa.Value, depth int) 
 		}
 	}
 	return out
+}
+
+// c31FieldOfValue: v reads field f of the struct value base (a Field instruction, or a load
+// through the unmodified local copy of that value).
+func c31FieldOfValue(v ssa.Value) (base ssa.Value, f *types.Var) {
+	switch x := v.(type) {
+	case *ssa.Field:
+		fv, _ := an.FieldOf(x)
+		return x.X, fv
+	case *ssa.UnOp:
+		if x.Op != token.MUL {
+			return nil, nil
+		}
+		fa, ok := x.X.(*ssa.FieldAddr)
+		if !ok {
+			return nil, nil
+		}
+		a, ok := fa.X.(*ssa.Alloc)
+		if !ok {
+			return nil, nil
+		}
+		var stored ssa.Value
+		n := 0
+		for _, ref := range *a.Referrers() {
+			switch r := ref.(type) {
+			case *ssa.Store:
+				if r.Addr != ssa.Value(a) {
+					return nil, nil
+				}
+				stored = r.Val
+				n++
+			case *ssa.FieldAddr:
+				for _, r2 := range *r.Referrers() {
+					if _, isLoad := r2.(*ssa.UnOp); !isLoad {
+						if _, isDbg := r2.(*ssa.DebugRef); !isDbg {
+							return nil, nil
+						}
+					}
+				}
+			case *ssa.UnOp, *ssa.DebugRef:
+			default:
+				return nil, nil
+			}
+		}
+		if n != 1 {
+			return nil, nil
+		}
+		fv, _ := an.FieldOf(fa)
+		return stored, fv
+	}
+	return nil, nil
 }
